@@ -99,3 +99,17 @@ Definition M_frame_insert (f : mframe) (key : Z) (labels : list val) (ins : tb v
   | Err e => Err e
   | Ok t' => frame_init (mf_index f) (S_insert_at (mf_columns f) key labels) t' (zlen (mf_index f)) (mf_name f)
   end.
+
+(* MODEL of FrameAssignBLoc.__call__ for an element / array value (frame.py: FrameAssignBLoc + TypeBlocks._assign_from_bloc_by_unit):
+   masks[j][i] = the normalised Boolean key, vals[j][i] = the value for column j, row i *)
+Fixpoint write_mask (m : list bool) (vs old : list val) : list val :=
+  match m, vs, old with
+  | b :: m', v :: vs', o :: old' => (if b then v else o) :: write_mask m' vs' old'
+  | _, _, _ => old
+  end.
+
+Definition M_frame_bloc_unit (f : mframe) (masks : list (list bool)) (vals : list (list val)) (vdt : dtype)
+    (resolve : dtype -> dtype -> dtype) : res (oframe * layout) :=
+  frame_init (mf_index f) (mf_columns f)
+    (from_blocks (bloc_walk (resolve vdt) (fun j m c => write_mask m (nthz vals j []) c) 0 (mf_blocks f) masks))
+    (zlen (mf_index f)) (mf_name f).
